@@ -157,6 +157,25 @@ OClose ==
     /\ opc' = IF ocur = Sentinel THEN "done" ELSE "dequeue"
     /\ UNCHANGED <<ppc, pnext, q, wpc, ocur, sink, err, dataOwner, blockOwner, handled>>
 
+\* ---- several lives of one Writer (used by PipelineWL and by the trace specification; not part of Next) ----
+\* Close or Reset may come before all N blocks were submitted: Blocks.close queues the sentinel
+PEarlyClose ==
+    /\ ppc = "submit" /\ Len(q) < Num
+    /\ q' = Append(q, Sentinel)
+    /\ ppc' = "closesend"
+    /\ UNCHANGED <<pnext, wpc, opc, ocur, chan, sink, err, dataOwner, blockOwner, handled>>
+
+\* Reset (or Close + Reset) and the next Write: Blocks.close has returned - the old orderer has exited, b.err is
+\* cleared - and initW starts a new orderer on a new queue.  Workers of the earlier life may still be between the
+\* closing of their channel and their last statement.
+PReopen ==
+    /\ ppc = "done" /\ opc = "done"
+    /\ ppc' = IF pnext > N THEN "closeq" ELSE "submit"
+    /\ opc' = "dequeue" /\ ocur' = 0 /\ q' = <<>>
+    /\ chan' = [chan EXCEPT ![Sentinel] = "empty"]
+    /\ err' = FALSE
+    /\ UNCHANGED <<pnext, wpc, sink, dataOwner, blockOwner, handled>>
+
 Next ==
     \/ PSubmit \/ PSpawn \/ PCloseQueue \/ PCloseSend \/ PCloseWait
     \/ \E i \in Blocks : WCompress(i) \/ WOffer(i) \/ WOffered(i) \/ WClosed(i) \/ WRelease(i)
